@@ -99,6 +99,9 @@ fn build_case(features_ok: bool) {
     let kflags: u32 = kani::any();
     let (sq_head, sq_tail, sq_flags, sq_array): (u32, u32, u32, u32) = (kani::any(), kani::any(), kani::any(), kani::any());
     kani::assume(sq_head <= 60 && sq_tail <= 60 && sq_flags <= 60 && sq_array <= 64);
+    // the ring words are u32s: the kernel hands out 4-byte aligned offsets (the teardown reads head and tail)
+    kani::assume(sq_head % 4 == 0 && sq_tail % 4 == 0 && sq_flags % 4 == 0);
+    env::real_shared_drop();
     let (cq_head, cq_tail, cq_cqes): (u32, u32, u32) = (kani::any(), kani::any(), kani::any());
     kani::assume(cq_head <= 60 && cq_tail <= 60 && cq_cqes <= 64);
     let mut out = [0u32; 30];
